@@ -37,20 +37,27 @@ def upd {α} (f : Nat → α) (k : Nat) (v : α) : Nat → α := fun i => if i =
 
 variable {S : Type}
 
+/-- Consumer counts.  Wrapped in a structure so that functions returning counts return *data*
+    (a bare `Nat → Nat` result would be compiled as an extra argument and re-run per lookup). -/
+structure Cnt where
+  get : Nat → Nat
+
+def Cnt.set (c : Cnt) (k v : Nat) : Cnt := ⟨upd c.get k v⟩
+
 /-- The loop of `propagate_consumers` over the stored operands. -/
-def propKids (rec : Nat → (Nat → Nat) → (Nat → Nat)) : List Slot → (Nat → Nat) → (Nat → Nat)
+def propKids (rec : Nat → Cnt → Cnt) : List Slot → Cnt → Cnt
   | [], c => c
   | s :: ss, c =>
     if s.tracked then
-      let old := c s.node
-      let c1 := upd c s.node (old + 1)
+      let old := c.get s.node
+      let c1 := c.set s.node (old + 1)
       -- don't double-count consumers
       let c2 := if old = 0 then rec s.node c1 else c1
       propKids rec ss c2
     else propKids rec ss c
 
 /-- `propagate_consumers` (fuel = recursion depth bound). -/
-def propagate (G : Graph S) : Nat → Nat → (Nat → Nat) → (Nat → Nat)
+def propagate (G : Graph S) : Nat → Nat → Cnt → Cnt
   | 0, _, c => c
   | f + 1, n, c => propKids (propagate G f) (G.kids n) c
 
@@ -111,7 +118,7 @@ def backward (G : Graph S) (fuel : Nat) (n : Nat) (dims : List Nat) (keep : Bool
   match σ.delta n with
   | some _ => process G fuel n keep σ
   | none => do
-    let cnt := propagate G fuel n σ.cnt
+    let cnt := (propagate G fuel n ⟨σ.cnt⟩).get
     let x ← match seed with
       | some s => pure s
       | none => Tensor.mk? dims (List.replicate (prod dims) one)
